@@ -97,8 +97,142 @@ def client_step(w):
     return {"reproduced": False, "detail": "client agrees with the reference interpreter on %d steps" % cases, "cases": cases, "failures": []}
 
 
+def _random_message(rnd, kinds, vals):
+    from indi import message as M
+    from indi.message import def_parts as DP, one_parts as OP
+    import base64
+    k = rnd.choice(kinds)
+    dev, vec = rnd.choice(["A", "B"]), rnd.choice(["P", "Q"])
+    r = rnd.random()
+    names = [rnd.choice(["x", "y", "z"]) for _ in range(rnd.randint(0, 3))]
+    if r < 0.35:
+        extra = {"format": "%f", "min": "0", "max": "1", "step": "0"} if k == "Number" else {}
+        ch = tuple(getattr(DP, "Def" + k)(name=n, value=(None if k == "BLOB" else rnd.choice([v for v in vals[k] if v is not None])), **extra) for n in names)
+        kw = dict(device=dev, name=vec, state=rnd.choice(["Idle", "Ok", "Busy", "Alert"]), children=ch)
+        if k != "Light":
+            kw["perm"] = "rw"
+        if k == "Switch":
+            kw["rule"] = "AnyOfMany"
+        return getattr(M, "Def%sVector" % k)(**kw)
+    if r < 0.85:
+        def part(n):
+            v = rnd.choice(vals[k])
+            if k == "BLOB":
+                return OP.OneBLOB(name=n, value=v, size=str(len(base64.b64decode(v or ""))), format=".x")
+            return getattr(OP, "One" + k)(name=n, value=v)
+        return getattr(M, "Set%sVector" % k)(device=dev, name=vec, state=rnd.choice(["Idle", "Ok", "Busy", "Alert"]), children=tuple(part(n) for n in names))
+    if r < 0.93:
+        return M.DelProperty(device=dev, name=rnd.choice([vec, None]))
+    return rnd.choice([M.Message(device=dev, message="hi"), M.PingRequest(uid="1")])
+
+
 @kind("client.events")
 def client_events(w):
-    """event chain + callback filtering natively over random streams"""
-    r = client_step(dict(w, n=w.get("n", 60)))
-    return r
+    """C16 natively: (a) an application that only listens to events (catch-all callback) never holds a stale value or state: chains are
+    unbroken per element / property object and end at the current value; (b) every registered callback gets exactly the events matching its
+    filters (independent matching rule), removed callbacks get nothing, a raising callback does not stop the others."""
+    import random
+    from indi.client import events as EV
+    from indi.device.snoop import SnoopingClient
+    rnd = random.Random(w.get("seed", 0))
+    kinds = ["Text", "Number", "Switch", "Light", "BLOB"]
+    vals = {"Text": ["a", "b", ""], "Number": ["1", "2.5"], "Switch": ["On", "Off"], "Light": ["Ok", "Busy"], "BLOB": ["YWJj", "", "eHl6"]}
+    cases = 0
+
+    def shown(v):
+        return ("BLOB", v.binary, v.format) if hasattr(v, "binary") else v
+    for it in range(w.get("n", 80)):
+        c = SnoopingClient(None)
+        heard_val, heard_state, all_events = {}, {}, []
+
+        def listen(ev):
+            all_events.append(ev)
+            if isinstance(ev, EV.ValueUpdate):
+                key = id(ev.element)
+                if key in heard_val and shown(heard_val[key][1]) != shown(ev.old_value):
+                    raise AssertionError("chain broken: event old value %r, the listener last heard %r" % (shown(ev.old_value), shown(heard_val[key][1])))
+                # (a definition announces every element, also one without content: the first event of an element object is exempt)
+                if key in heard_val and shown(ev.old_value) == shown(ev.new_value) and not hasattr(ev.new_value, "binary"):
+                    raise AssertionError("ValueUpdate although the value did not change (%r)" % (shown(ev.new_value),))
+                heard_val[key] = (ev.element, ev.new_value)
+            elif isinstance(ev, EV.StateUpdate):
+                key = id(ev.vector)
+                if key in heard_state and heard_state[key][1] != ev.old_state:
+                    raise AssertionError("state chain broken")
+                if ev.old_state == ev.new_state:
+                    raise AssertionError("StateUpdate although the state did not change")
+                heard_state[key] = (ev.vector, ev.new_state)
+        problems = []
+
+        def safe_listen(ev):
+            try:
+                listen(ev)
+            except AssertionError as e:
+                problems.append(str(e))
+        c.onevent(callback=safe_listen)
+        # filtered callbacks
+        regs = []
+        for j in range(rnd.randint(0, 4)):
+            f = dict(device=rnd.choice([None, "A", "B", "Z"]), vector=rnd.choice([None, "P", "Q", "Z"]), element=rnd.choice([None, "x", "y", "Z"]),
+                     event_type=rnd.choice([EV.BaseEvent, EV.ValueUpdate, EV.StateUpdate, EV.DefinitionUpdate]))
+            got = []
+            boom = rnd.random() < 0.3
+
+            def cb(ev, got=got, boom=boom):
+                got.append(ev)
+                if boom:
+                    raise RuntimeError("callback failure")
+            uid = c.onevent(callback=cb, **f)
+            regs.append({"f": f, "got": got, "uid": uid, "active": True, "from": 0})
+        for step in range(rnd.randint(1, 10)):
+            m = _random_message(rnd, kinds, vals)
+            mark = len(all_events)
+            try:
+                c.process_message(m)
+            except Exception as e:
+                return {"reproduced": True, "detail": "process_message raised %r" % (e,), "cases": cases, "failures": []}
+            cases += 1
+            new = all_events[mark:]
+            for r in regs:
+                f = r["f"]
+
+                def match(ev):
+                    if not isinstance(ev, f["event_type"]):
+                        return False
+                    if f["device"] is not None and (ev.device is None or ev.device.name != f["device"]):
+                        return False
+                    if f["vector"] is not None and (ev.vector is None or ev.vector.name != f["vector"]):
+                        return False
+                    if f["element"] is not None and (ev.element is None or ev.element.name != f["element"]):
+                        return False
+                    return True
+                want = [ev for ev in new if match(ev)] if r["active"] else []
+                got = r["got"][r["from"]:]
+                r["from"] = len(r["got"])
+                if [id(x) for x in got] != [id(x) for x in want]:
+                    problems.append("callback with filter %r (%s) got %d event(s) for %s, %d match its filter"
+                                    % ({k: (v.__name__ if isinstance(v, type) else v) for k, v in f.items()}, "registered" if r["active"] else "removed",
+                                       len(got), m.__class__.__name__, len(want)))
+            if regs and rnd.random() < 0.25:
+                r = rnd.choice(regs)
+                if r["active"]:
+                    c.rmonevent(uuid=r["uid"])
+                    r["active"] = False
+            # the listener's knowledge equals the client's view
+            for dev in c.devices.values():
+                for vec in dev.vectors.values():
+                    if id(vec) in heard_state and heard_state[id(vec)][1] != vec.state:
+                        problems.append("a listener holds state %r for %s.%s, the client shows %r" % (heard_state[id(vec)][1], dev.name, vec.name, vec.state))
+                    if id(vec) not in heard_state and vec.state is not None:
+                        problems.append("no state event was ever raised for %s.%s (state %r)" % (dev.name, vec.name, vec.state))
+                    for el in vec.elements.values():
+                        cur = shown(el.value)
+                        if id(el) in heard_val:
+                            if shown(heard_val[id(el)][1]) != cur:
+                                problems.append("a listener holds %r for %s.%s.%s, the client shows %r" % (shown(heard_val[id(el)][1]), dev.name, vec.name, el.name, cur))
+                        elif cur is not None:
+                            problems.append("no value event was ever raised for %s.%s.%s (value %r)" % (dev.name, vec.name, el.name, cur))
+            if problems:
+                return {"reproduced": True, "detail": "; ".join(problems[:3]), "cases": cases,
+                        "failures": [{"detail": p, "reproduced": True, "witness": {"replay_kind": "client.events"}} for p in problems[:3]]}
+    return {"reproduced": False, "detail": "event chains unbroken and callbacks exact on %d steps" % cases, "cases": cases, "failures": []}
